@@ -1,14 +1,4 @@
-mod adapters;
-mod baton;
-mod exec;
-mod flushrace;
-mod narrate;
-mod oracle;
-mod prog;
-mod props;
-mod strs;
-mod teardown;
-mod world;
+use fr_core::{exec, flushrace, narrate, prog, props, teardown};
 
 use std::collections::{BTreeMap, HashSet};
 use std::io::Write;
@@ -17,8 +7,8 @@ use proptest::strategy::ValueTree;
 use proptest::test_runner::{Config, RngAlgorithm, TestCaseError, TestError, TestRng, TestRunner};
 use serde_json::json;
 
-use crate::oracle::Viol;
-use crate::prog::Program;
+use fr_core::oracle::Viol;
+use fr_core::prog::Program;
 
 fn arg<'a>(args: &'a [String], k: &str) -> Option<&'a str> {
     args.iter().position(|a| a == k).and_then(|i| args.get(i + 1)).map(|s| s.as_str())
@@ -297,6 +287,16 @@ fn replay(args: &[String]) -> i32 {
     let file = arg(args, "--file").expect("--file");
     let txt = std::fs::read_to_string(file).expect("read replay");
     let v: serde_json::Value = serde_json::from_str(&txt).expect("json");
+    if let Some(hex) = v.get("bytes_hex").and_then(|h| h.as_str()) {
+        // a libFuzzer input of the sched_prog target (hooked build only)
+        quiet_panics();
+        let bytes: Vec<u8> = (0..hex.len() / 2).map(|i| u8::from_str_radix(&hex[2 * i..2 * i + 2], 16).unwrap()).collect();
+        let (p, h, viols) = fr_core::fuzzdec::check_bytes(&bytes);
+        println!("{}", serde_json::to_string_pretty(&json!({
+            "violations": viols.iter().map(|v| json!({"sig": v.sig, "msg": v.msg, "prop": v.prop})).collect::<Vec<_>>(),
+            "program": p, "narrative": narrate::narrate(&h)})).unwrap());
+        return if viols.is_empty() { 0 } else { 1 };
+    }
     if v["variant"].as_str() == Some("flushrace") {
         quiet_panics();
         flushrace::install();
